@@ -74,7 +74,7 @@ theorem ans_bind_ok {α β} (x : Except Err α) (f : α → Except Err β) :
 /-- T1 for one block -/
 theorem extractSingle_spec (P alph : List Char) (hnt : isNt alph = true) (b : Blk) (st : Strand)
     (hw : blkWithin P b) : ans (extractSingle P alph b st) = expectExtractLoc P alph ⟨[b], st⟩ := by
-  unfold extractSingle expectExtractLoc
+  unfold extractSingle expectExtractLoc readAt
   cases st with
   | plus =>
     simp only [bases, basesPlus, List.append_nil, charsAt_blkAsc P b hw]
@@ -89,7 +89,7 @@ theorem extractSingle_spec (P alph : List Char) (hnt : isNt alph = true) (b : Bl
 theorem extractCompound_spec (P alph : List Char) (hnt : isNt alph = true) (bs : List Blk) (st : Strand)
     (hne : bs ≠ []) (hw : ∀ b ∈ bs, blkWithin P b) :
     ans (extractCompound P alph ⟨bs, st⟩) = expectExtractLoc P alph ⟨bs, st⟩ := by
-  unfold extractCompound expectExtractLoc assertDirectional
+  unfold extractCompound expectExtractLoc readAt assertDirectional
   cases st with
   | unstranded => rfl
   | plus =>
@@ -138,6 +138,10 @@ def Within (P : List Char) : Location → Prop
   | .single b _ => blkWithin P b
   | .compound l => ∀ b ∈ l.blocks, blkWithin P b
   | .empty => True
+
+instance (P : List Char) (b : Blk) : Decidable (blkWithin P b) := by unfold blkWithin; infer_instance
+instance (P : List Char) (l : Location) : Decidable (Within P l) := by
+  cases l <;> unfold Within <;> infer_instance
 
 theorem within_of_Within (P : List Char) (l : Location) (loc : Loc) (hl : toLoc l = some loc) :
     within P loc = true ↔ Within P l := by
